@@ -91,7 +91,8 @@ def behaviour(model, texts, **kw):
             out.append(['ok', repr(norm(model.parse(t, **kw)))])
         except Exception as e:  # noqa: BLE001
             from tatsu.exceptions import FailedParse
-            out.append(['fail' if isinstance(e, FailedParse) else 'exc', type(e).__name__])
+            # the properties speak of accepting the same inputs with equal ASTs: which FailedParse subclass reports a rejection is not compared
+            out.append(['fail', ''] if isinstance(e, FailedParse) else ['exc', type(e).__name__])
     return out
 
 
@@ -117,6 +118,41 @@ def diff_path(a, b, path='$'):
     return None if a == b else f'{path}: {a!r} != {b!r}'[:300]
 
 
+ANTLR = [
+    ('expr', """grammar Expr;
+prog: (expr NEWLINE)* EOF ;
+expr: expr ('*'|'/') expr | expr ('+'|'-') expr | INT | '(' expr ')' ;
+NEWLINE : [\\r\\n]+ ;
+INT : [0-9]+ ;
+WS : [ \\t]+ -> skip ;
+""", ['1+2\n', '1*(2-3)\n4\n', '', '1+\n', '(1\n']),
+    ('csv', """grammar Csv;
+file: row+ EOF ;
+row: field (',' field)* '\\r'? '\\n' ;
+field: TEXT | STRING | ;
+TEXT : ~[,\\n\\r"]+ ;
+STRING : '"' ('""'|~'"')* '"' ;
+""", ['a,b\n', 'a,"b ""c"""\n1,2\n', ',\n', 'a', '"\n']),
+    ('opts', """grammar Opts;
+start: item* EOF ;
+item: ID '=' value ';' | 'flag' ID? ';' ;
+value: INT | ID | list ;
+list: '[' (value (',' value)*)? ']' ;
+ID : [a-zA-Z_] [a-zA-Z_0-9]* ;
+INT : '0' | [1-9] [0-9]* ;
+WS : [ \\t\\r\\n]+ -> skip ;
+""", ['a = 1;', 'flag; flag x; b=[1,[c,2],[]];', 'a = ;', 'a = 01;', '']),
+    ('frag', """grammar Frag;
+start: (NUM | WORD)+ EOF ;
+NUM : DIGIT+ ('.' DIGIT+)? ;
+WORD : LETTER (LETTER | DIGIT)* ;
+fragment DIGIT : [0-9] ;
+fragment LETTER : [a-z] | [A-Z] ;
+WS : ' '+ -> skip ;
+""", ['12 ab 3.5 x9', '3.', 'a.b', '']),
+]
+
+
 def run_pretty_case(case):
     """C13 for one grammar text: pretty -> recompile -> same model (modulo normalisations), same behaviour, fixpoint, railroads."""
     import tatsu
@@ -126,13 +162,19 @@ def run_pretty_case(case):
     out = {'problems': []}
     P = out['problems']
     try:
-        if case.get('json'):
+        if case.get('antlr'):
+            from tatsu.g2e.g2etool import translate
+            m = translate(text=case['antlr'], name=case.get('name', 'Antlr'))
+        elif case.get('json'):
             import json as _json
             from tatsu.peg import Grammar
             m = Grammar.load(_json.loads(tatsu.compile(case['ebnf']).asjsons()) if case['json'] == 'roundtrip' else case['json'])
         else:
             m = tatsu.compile(case['ebnf'])
     except Exception as e:  # noqa: BLE001
+        if case.get('antlr'):
+            P.append(f'the ANTLR translator raised {type(e).__name__}: {e}'[:300])
+            return out
         out['skip'] = f'source does not compile: {type(e).__name__}: {e}'[:200]
         return out
     try:
@@ -148,6 +190,11 @@ def run_pretty_case(case):
         P.append(f'the pretty-printed text does not compile: {type(e).__name__}: {str(e)[:200]}')
         return out
     a, b = simplify(from_model(m)), simplify(from_model(m2))
+    if case.get('antlr'):
+        # the name of a translated model is an argument of translate(), not a directive of the grammar: it is not part of the text
+        a.pop('name', None), b.pop('name', None)
+        for x in (a, b):
+            (x.get('directives') or {}).pop('grammar', None)
     if case.get('compare_model', True):
         d = diff_path(a, b)
         if d:
